@@ -406,10 +406,11 @@ class GroupEffectsMatrix:
             delta = term_matrix.shape[1] if term_matrix.ndim == 2 else 1
             matrices_to_stack.append(term_matrix)
 
-            slice_original = self.slices[term.name]
             slice_new = slice(start, start + delta)
 
-            slice_w_original = get_slice_width(slice_original)
+            # The width at training, whatever instance this method is called on (it may be one
+            # returned by an earlier call, whose slices already include a column for a new group)
+            slice_w_original = term.data.shape[1] if term.data.ndim == 2 else 1
             slice_w_new = get_slice_width(slice_new)
 
             # If the width of the slices differ, there's a new column, thus a new group.
